@@ -137,6 +137,11 @@ func ndDoc(id int, file string, orderOnly bool) *docSpec {
 	} else {
 		d.text = fmt.Sprintf("# doc-%d\nplaceholder: true", id)
 	}
+	// a document may embed text that looks like a separator: an INDENTED "---" line inside a
+	// block scalar is content, not a document boundary
+	if !orderOnly && id == 0 && ndBool("embeddedSeparatorLine") {
+		d.text += "\ndata:\n  embedded: |\n    first\n    ---\n    second"
+	}
 	return d
 }
 
